@@ -13,12 +13,20 @@ EXPLANATION = ("S1-S12 every request builder is abstractly evaluated (path-sensi
                "stream's handle, the search start takes the options; M2/M3 on every path of every public operation method on which the "
                "operation is issued - and on every path on which it is rejected locally - all three modifiers have been consumed; M5 the "
                "requests the library issues on its own (follow-up pages of the paging adapter) carry exactly the saved controls plus the "
-               "paging control and leave the saved controls as they were (C16's rules). "
+               "paging control and leave the saved controls as they were (C16's rules); S16 the Filter inside a SearchRequest / an Assertion or "
+               "MatchedValues control value is what the filter string says (C08's P3 / P4 shapes, P1.entry whole input, P8 every text slot "
+               "holds exactly the bytes its grammar rule consumed - attribute description with all its options, matching rule name); S17 the BER writer (C07's rules). "
                "Not decided: that lber serialises a shape into the right bytes (C07); values of arbitrary size.")
 TRUSTED = ['lber serialises shapes faithfully (C07)', 'RFC 4511 shapes transcribed in rules/props/C02.py']
 UNDECIDED = ['byte-level serialisation (C07)', 'arbitrary value sizes']
 ASSUMPTIONS = []
-SHARED = [('C08', ('P3.', 'P4.', 'P1.entry'), 'S16.filter'), ('C07', ('B1.', 'B2m.', 'B4.encoder', 'B5.'), 'S17.ber-writer'),      # the Filter of a SearchRequest is built by the filter compiler's semantic actions
+SHARED = [# S16 stands for the clause "... reads back exactly the requested operation: ... filter ... and the attached controls with their
+          # ... value": the Filter of a SearchRequest (and the value of the Assertion / MatchedValues controls) is built by the filter
+          # compiler's semantic actions: P3 / P4 the shape built from the parse results, P1.entry the whole string is parsed, P8 the
+          # octets of the text slots (attribute description with its options, matching rule) are exactly the bytes the caller wrote
+          # there - what each leaf parser RETURNS is what it CONSUMED (seed C02i: attributedescription() still consumed `cn;lang-en`
+          # but returned `cn`)
+          ('C08', ('P3.', 'P4.', 'P1.entry', 'P8.'), 'S16.filter'), ('C07', ('B1.', 'B2m.', 'B4.encoder', 'B5.'), 'S17.ber-writer'),
           # the one place where the library itself attaches controls to requests the caller did not spell out: every follow-up Search of
           # the paging adapter carries exactly the controls saved when the search started plus one paging control, and issuing it leaves
           # the saved controls / options as they were (nothing leaks from one exchange into the next)
